@@ -97,7 +97,7 @@ type c09Enc struct {
 }
 
 func c09Stem(n int) string {
-	const base = "stemSTEMstemSTEMstem"
+	const base = "stemSTEMstemSTEMstemSTEMstemSTEMstemSTEMstemSTEMstemSTEMstemSTEMstemSTEM"
 	return base[:n]
 }
 
